@@ -113,7 +113,14 @@ def target_font(r, kinds=None, cursive=False):
             ligsets[13] = [([14], 15)]
         # MultipleSubst (applied first): glyph 11 becomes a sequence of ordinary glyphs
         mult = {MULT_SRC: [r.choice(GEN[:-1]) for _ in range(r.range(2, 3) if r.chance(5, 6) else 1)]} if r.chance(1, 2) else {}
-        sem["gsub"] = {"flag": flag, "ligsets": ligsets, "mult": mult}
+        # MultipleSubst applied AFTER the ligature lookup: a ligature glyph is expanded again.  Every output keeps the
+        # ligature id and is a "ligature base" (component number 0) of that id; the ligature glyph itself is often among them
+        mult_after = {}
+        if r.chance(1, 2):
+            for lg in LIGS:
+                if r.chance(2, 3):
+                    mult_after[lg] = [r.choice([lg, lg] + GEN[:-1]) for _ in range(r.range(2, 3))]
+        sem["gsub"] = {"flag": flag, "ligsets": ligsets, "mult": mult, "mult_after": mult_after}
         firsts = sorted(ligsets)
         lks = []
         if mult:
@@ -121,6 +128,9 @@ def target_font(r, kinds=None, cursive=False):
         lks.append({"type": 4, "flag": flag, "subtables": [{
             "coverage": firsts,
             "ligsets": [[{"components": c, "glyph": g} for c, g in ligsets[f]] for f in firsts]}]})
+        if mult_after:
+            srcs = sorted(mult_after)
+            lks.append({"type": 2, "flag": 0, "subtables": [{"coverage": srcs, "sequences": [mult_after[g] for g in srcs]}]})
         rec["gsub"] = {"features": [{"tag": "ccmp", "lookups": list(range(len(lks)))}], "lookups": lks}
     lookups = []
     nl = r.range(1, 3) if r.chance(3, 4) else r.range(4, 5)
@@ -297,6 +307,24 @@ def run_gsub(sem, B):
                 break
         if not done:
             out.append(cur); i += 1
+    ma = gs.get("mult_after")
+    if ma:
+        # Sequence::apply: a glyph that carries a ligature id keeps its ligature properties on every output ("if is attached
+        # to a ligature, don't disturb that"); otherwise the outputs are numbered 0, 1, 2, ... like any multiplied glyph
+        exp = []
+        for x in out:
+            seq = ma.get(x.g)
+            if seq is None:
+                exp.append(x); continue
+            for ci, g in enumerate(seq):
+                y = G(g, props_of(sem, g), x.src); y.mult = True
+                if x.lig_id:
+                    y.lig_id, y.comp, y.is_lig = x.lig_id, x.comp, x.is_lig
+                else:
+                    y.comp = ci
+                    y.is_lig = x.is_lig
+                exp.append(y)
+        out = exp
     return out
 
 
@@ -496,6 +524,10 @@ def check(sem, text, d, flags, so, s0, stats=None):
         stats["attached"] += len(att)
         if len(buf) < len(B): stats["with_ligature"] += 1
         if any(x.mult for x in buf): stats["with_multiple_subst"] += 1
+        if any(x.mult and x.lig_id for x in buf): stats["with_multiplied_ligature"] = stats.get("with_multiplied_ligature", 0) + 1
+        for i, (j, _, _, kind) in att.items():
+            if kind == "mark" and buf[i].lig_id and buf[i].lig_id == buf[j].lig_id and buf[i].comp == 0:
+                stats["attached_same_ligature_id_component_0"] = stats.get("attached_same_ligature_id_component_0", 0) + 1
         if alt: stats["shared_cache_alternatives_possible"] += 1
         for i, (j, _, _, kind) in att.items():
             if not buf[i].props & MARK: stats["attached_non_mark"] += 1
@@ -695,6 +727,17 @@ def rand_infos(r, sem, all_mask):
                 pp = (props_of(sem, gg) if r.chance(2, 3) else r.choice([0, BASE_GLYPH, MARK])) | SUBSTITUTED
                 if not r.chance(1, 6): pp |= MULTIPLIED
                 out.append((gg, mask, pp, (lid << 5) | (c if r.chance(5, 6) else r.range(0, 4)), up))
+        elif k == 3:          # a ligature expanded again by a MultipleSubst: every output keeps the ligature id and is a
+            lig_id = lig_id % 7 + 1      # ligature base of that id (component number 0); marks of the ligature may follow
+            nc = r.range(1, 4)
+            for c in range(r.range(2, 4)):
+                gg = r.choice(covered) if covered and r.chance(2, 3) else r.choice(ALL)
+                pp = props_of(sem, gg) if r.chance(2, 3) else r.choice([0, BASE_GLYPH, LIGATURE, MARK])
+                out.append((gg, mask, pp | SUBSTITUTED | MULTIPLIED | (LIGATED if r.chance(3, 4) else 0), (lig_id << 5) | 0x10 | nc, up))
+            for _ in range(r.range(0, 2)):
+                m = r.choice(covered) if covered and r.chance(2, 3) else r.choice(ALL)
+                mp = props_of(sem, m) if r.chance(1, 2) else MARK | r.choice([0, 0x100, 0x200])
+                out.append((m, mask, mp, (lig_id << 5) | r.range(0, 5), up))
         elif k == 2:          # a default ignorable of some kind
             kind = r.below(6)
             u = UP_IGNORABLE | (1 if kind < 4 else 12)
